@@ -256,7 +256,14 @@ def run_shard(spec):
     d = Direct()
     if "replay" in spec:
         w = spec["replay"]
-        if w.get("kind") != "direct":
+        if w.get("kind") == "restart":
+            world = gen.World(random.Random(0))
+            for hx in w["chain"]:
+                rb = ref.parse_block(bytes.fromhex(hx))
+                world.accept(rb, bridge.rblock_to_real(rb), validate=False)
+            for batches in range(4):        # (several flush batchings)
+                restart_lane(st, random.Random(batches), 1, replay_world=world)
+        elif w.get("kind") != "direct":
             st.replay(w, random.Random(0))
         return st.result()
     rng = random.Random("c02/%d/%d" % (spec["seed"], spec["shard"]))
@@ -270,7 +277,7 @@ def run_shard(spec):
         st.run_world(rng, cstream.C02_CROWDED, nblocks=rng.choice([30, 40]), ncand=14 if quick else 28, bad_key_prob=0.0)
     d.run(rng, 250 if quick else 6000)
     if spec["shard"] % 4 == 1:
-        restart_lane(st, rng, 3 if quick else 40)
+        restart_lane(st, rng, 4 if quick else 40)
     if spec["shard"] % 4 == 0:
         node_lane(st, rng, 3 if quick else 40, 12)
     res = st.result()
@@ -282,7 +289,7 @@ def run_shard(spec):
     return res
 
 
-def restart_lane(st, rng, nworlds):
+def restart_lane(st, rng, nworlds, replay_world=None):
     """conservation in the chain state a RESTARTED node rebuilds: trees in which sibling blocks spend the same outputs through
     different transactions are written to a file-backed block store, the state is rebuilt from it by the repository's own
     loader, and at every block of the rebuilt state the unspent total may exceed the parent's by at most the subsidy"""
@@ -294,9 +301,28 @@ def restart_lane(st, rng, nworlds):
     from skepticoin.blockstore import BlockStore
     c = st.c
     for j in range(nworlds):
-        world = gen.World(rng)
-        world.reuse_pending = False          # (a transaction shared by two stored blocks is C08's known finding)
-        world.grow(rng.choice([10, 16, 24]), rng, tx_prob=0.8, bias="mixed")
+        if replay_world is not None:
+            world = replay_world
+        elif j == 0:
+            # the listed finding's own witness, every run: sibling blocks with the same reward transaction (same height, key,
+            # value), the later one carrying a spend
+            world = gen.World(rng)
+            world.grow(3, rng, tx_prob=0.0, bias="linear")
+            head = world.cs.current_chain_hash
+            par = world.chain.blocks[head]
+            key = world.keys[0][1]
+            try:
+                rb1, real1 = world.assemble(head, [], par.ts + 60, key, route="ref")
+                world.accept(rb1, real1, now=rb1.ts)
+                t = world.make_rtx(head, rng, fee=0)
+                rb2, real2 = world.assemble(head, [t] if t is not None else [], par.ts + 61, key, route="ref")
+                world.accept(rb2, real2, now=rb2.ts)
+            except Exception:
+                pass
+        else:
+            world = gen.World(rng)
+            world.reuse_pending = False          # (a transaction shared by two stored blocks is C08's known finding)
+            world.grow(rng.choice([10, 16, 24]), rng, tx_prob=0.8, bias="mixed")
         order = world.chain.order[1:]
         path = os.path.join(os.getcwd(), "c02-restart-%d.db" % j)
         for suffix in ("", "-journal"):
@@ -340,6 +366,22 @@ def restart_lane(st, rng, nworlds):
         c["outputs_spent_differently_on_sibling_branches"] = c.get("outputs_spent_differently_on_sibling_branches", 0) + sum(
             1 for v in spent_by.values() if len(v) > 1)
         w = {"kind": "restart", "chain": gen.blocks_hex(world, order)}
+        # the known finding of C08 (KNOWN_FINDINGS.txt): a transaction id contained in two stored blocks -- here identical reward
+        # transactions of sibling blocks -- is attached to the first block only; the later block reads back without it
+        owners = {}
+        for b in order:
+            for t in world.chain.blocks[b].txs:
+                owners.setdefault(t.id(), set()).add(b)
+        sharing = {b for v in owners.values() if len(v) > 1 for b in v}
+
+        def tainted(x):
+            while x in world.chain.blocks and x != world.gid:
+                if x in sharing:
+                    return True
+                x = world.chain.blocks[x].prev
+            return False
+        if sharing:
+            c["restart_worlds_with_a_transaction_id_in_two_blocks"] = c.get("restart_worlds_with_a_transaction_id_in_two_blocks", 0) + 1
         for b in order:
             rb = world.chain.blocks[b]
             um = rebuilt.unspent_transaction_outs_by_hash.get(b)
@@ -349,6 +391,11 @@ def restart_lane(st, rng, nworlds):
             c["conservation_checks_after_restart"] = c.get("conservation_checks_after_restart", 0) + 1
             tot = sum(o.value for o in um.values())
             ptot = sum(o.value for o in pm.values())
+            if tot > ptot + ref.subsidy(rb.height) and tainted(b):
+                st.v("shared-transaction-id-across-stored-blocks", "in the chain state rebuilt from the block store the unspent total "
+                     "after block h=%d is %d, after its parent %d, subsidy %d; the block (or an ancestor) contains a transaction id "
+                     "that another stored block contains too" % (rb.height, tot, ptot, ref.subsidy(rb.height)), w)
+                break
             if tot > ptot + ref.subsidy(rb.height):
                 st.v("unspent-total-grew-beyond-subsidy-after-restart", "in the chain state rebuilt from the block store the unspent total "
                      "after block h=%d is %d, after its parent %d, subsidy %d" % (rb.height, tot, ptot, ref.subsidy(rb.height)), w)
